@@ -83,7 +83,10 @@ def check_roundtrip(chk, prog, cfg):
             ws_np = [x for x in ws if x[1] != "phantom"]
             rs_np = [x for x in rs if x[1] != "phantom"]
             adt_fields = sorted(f["name"] for f in prog.adts[path]["variants"][0]["fields"])
-            once = sorted(f for f, _, _ in ws) == adt_fields
+            # a PhantomData member is the empty production whether the writer mentions it or not
+            markers = {f["name"] for f in prog.adts[path]["variants"][0]["fields"] if prog.ty_is_adt(f["ty"], "core::marker::PhantomData")}
+            written = sorted(f for f, _, _ in ws)
+            once = sorted(set(written) | markers) == adt_fields and len(set(written)) == len(written)
             ok = ws_np == rs_np and once
             detail = "writer %s / reader %s" % (ws_np, rs_np)
             if not once:
